@@ -332,4 +332,28 @@ def endOfStep (pop : List (IAgent α)) (ops : List (PopOp α)) : List (IAgent α
 def collectStep (o : Ops α) (pop : List (IAgent α)) (ops : List (PopOp α)) : Stats α :=
   collect o ((endOfStep pop ops).map (·.agent))
 
+/-! ### wave 7: the text of a column key
+
+`get_stats_for` keys its per-time dictionary by the *string* `state + "_" + property + "_" + aggregate` (count mode:
+the state name); the model keys by the structured `Col`.  The two agree exactly when the strings of the selected
+columns are pairwise different — a condition on the NAMES in the request (`KeysDistinct`), probed per run. -/
+
+def aggName : Agg4 → String
+  | .total => "total" | .min => "min" | .max => "max" | .mean => "mean"
+
+def renderKey (states props : List String) (c : Col) : String :=
+  match c.pa with
+  | none => states.getD c.state "?"
+  | some (p, a) => states.getD c.state "?" ++ "_" ++ props.getD p "?" ++ "_" ++ aggName a
+
+/-- all columns a request can name over `ns` states and `np` properties. -/
+def allCols (ns np : Nat) : List Col :=
+  (List.range ns).flatMap (fun st => (⟨st, none⟩ : Col) ::
+    (List.range np).flatMap (fun p => [Agg4.total, .min, .max, .mean].map (fun a => (⟨st, some (p, a)⟩ : Col))))
+
+/-- the key strings of these columns are pairwise different. -/
+def keysDistinct (states props : List String) : Bool :=
+  let ks := (allCols states.length props.length).map (renderKey states props)
+  ks.eraseDups.length == ks.length
+
 end Bptk.C13
